@@ -1,18 +1,65 @@
 CONFIG = dict(
-    level_text="(in progress)",
-    level_note="(in progress)",
+    level_text="Kernel-checked Lean theorems about the model of the UPDATE arm of parse_message (shared with C03) and of "
+               "validate_message/validate_update, for every byte string, codec, profile and peer kind: whatever UPDATE the "
+               "parser returns, validate_update produces a Message list accepted by the parsed-level reference checker "
+               "written from the property text (treat-as-withdraw whenever the TYPE of a reported attribute is not "
+               "discardable, an unrecognised well-known attribute or a mandatory attribute is missing: no route announced and "
+               "every announced prefix withdrawn; withdrawals always passed on; a reported attribute never attached to an "
+               "announced route; LOCAL_PREF/ORIGINATOR_ID/CLUSTER_LIST never attached for an external peer); complete finite "
+               "classification tables (all type codes x all flag octets); a reset only from the section lengths, a repeated MP "
+               "attribute or the NLRI. The byte-level reference checker (valid UPDATE + RFC 7606 corruption list -> allowed "
+               "outcomes) is NOT proved against the model (statement check_run_ok_full); it is the oracle evaluated on the real "
+               "code for every generated case, and model and real code are diffed on the rendered bytes and the full Message "
+               "list. Packet half only: the RIB after rx_msg is out of scope of this version.",
+    level_note="Trusted: Lean kernel; axioms propext/Classical.choice/Quot.sound; hand-written model (checked only by the "
+               "correspondence stream); the two renderers (Lean `render`, Rust harness) that turn (valid UPDATE, corruptions) "
+               "into bytes - they are diffed byte for byte on every case; the byte-level oracle's own RFC tables (attribute "
+               "classes, value syntax). Not proved: byte-level checker vs model for all cases (oracle only). Out of scope: "
+               "end-to-end RIB effect (PeerSession::rx_msg / Table), attribute bodies of PREFIX_SID / TUNNEL_ENCAP / BGP-LS "
+               "(opaque at this layer), families other than IPv4/IPv6 unicast+multicast.",
     lean_modules=["Rbgp.Wire.UpdateProps"],
-    theorems=[],
+    theorems=[
+        "Rbgp.Wire.UProps.update_validated_ok",
+        "Rbgp.Wire.UProps.validate_check_ok",
+        "Rbgp.Wire.UProps.taw_no_reach",
+        "Rbgp.Wire.UProps.must_taw_is_taw",
+        "Rbgp.Wire.UProps.withdrawals_preserved",
+        "Rbgp.Wire.UProps.discard_removes_attr",
+        "Rbgp.Wire.UProps.discard_removes_attr_parsed",
+        "Rbgp.Wire.UProps.reach_attrs",
+        "Rbgp.Wire.UProps.ebgp_filters_ibgp_attrs",
+        "Rbgp.Wire.UProps.classification_table_types",
+        "Rbgp.Wire.UProps.classification_table_flags",
+        "Rbgp.Wire.UProps.classification_table",
+        "Rbgp.Wire.UProps.reset_only_if_nlri_unlocatable",
+        "Rbgp.Wire.UProps.attr_loop_reset_only_duplicate_mp",
+        "Rbgp.Wire.UProps.nonvacuous_discard",
+    ],
     harness=dict(kind="pt", bin="c05"),
     profiles=["debug", "release"],
     profile_in_case=True,
     n_quick=6000, n_thorough=300000, shards=12,
     nontrivial_re=r"\(reset |\(unreach |\(reach ",
-    rule="",
-    expect_tokens=[],
-    trusted_base=[],
-    modelled_not_verified=[],
-    assumptions=[],
-    claimed=False,
-    na_reason="model + correspondence + oracle in place; theorems in progress",
+    rule="case = (codec, eBGP?, valid UPDATE u, corruption list c): u = legacy withdrawn / legacy NLRI / MP_REACH (IPv6 with 16- "
+         "or 32-byte next hop, or IPv4-in-MP) / MP_UNREACH over small colliding prefix pools, with ORIGIN, AS_PATH (2- or "
+         "4-octet per session), NEXT_HOP and a random subset of MED, LOCAL_PREF, ATOMIC_AGGREGATE, AGGREGATOR (6/8), COMMUNITIES, "
+         "ORIGINATOR_ID, CLUSTER_LIST, EXT/LARGE COMMUNITIES, AIGP, AS4_PATH, AS4_AGGREGATOR, PREFIX_SID; c = 0-3 of: flags "
+         "(each Optional/Transitive conflict, partial, extended-length), value replaced by a type-specific malformed value "
+         "(bad length, ORIGIN > 2, bad segment type / count, AIGP TLV length, ...), length field only, duplicate (same / "
+         "different value), omission, attribute-block truncation by 0-8 bytes, appended unrecognised attribute of each flag "
+         "class, bad legacy NLRI prefix length; codec = IPv4/IPv6 unicast with AddPath, extended message, 2-octet AS; both sides "
+         "render the bytes themselves. non-trivial = the outcome is a reset or contains a reach/unreach message; distinct = "
+         "distinct case line",
+    expect_tokens=["(reset 3 1 ", "(reset 3 9 ", "(reach 65537 ", "(reach 131073 ", "(unreach 65537 ", "(unreach 131073 ",
+                   "(ok)", " opq ", " val ", "(eor "],
+    trusted_base=["model lean/Rbgp/Wire/{Model,Update}.lean of packet/src/bgp.rs parse_message UPDATE arm + validate_update",
+                  "the two renderers of (valid UPDATE, corruptions): lean/Rbgp/Wire/Update.lean `render` and harness/pt/src/bin/"
+                  "c05.rs `render` (diffed byte for byte on every case)",
+                  "the byte-level reference checker lean/Rbgp/Wire/UpdateSpec.lean `check` (oracle; its agreement with the model "
+                  "is not a theorem)"],
+    modelled_not_verified=["PeerSession::rx_msg / Table::insert|remove (end-to-end half: which routes the RIB holds afterwards)",
+                           "is_as_loop filtering between validate_message and rx_msg",
+                           "attribute bodies of PREFIX_SID, TUNNEL_ENCAP, BGP-LS (not parsed at this layer)"],
+    assumptions=["received bytes are octets (< 256)", "families in a codec are distinct"],
+    claimed=True,
 )
